@@ -9,7 +9,25 @@ import (
 	"time"
 
 	"github.com/honeycombio/refinery/internal/health"
+	"github.com/honeycombio/refinery/logger"
 )
+
+// hookLogger is the Logger given to Health: a NullLogger whose next Info() call
+// runs something first. Health logs when a report changes a subsystem's state;
+// that call sits in the middle of Ready and is the seam for "an Unregister (or
+// another report) overlaps a Ready".
+type hookLogger struct {
+	logger.NullLogger
+	hook func()
+}
+
+func (l *hookLogger) Info() logger.Entry {
+	if h := l.hook; h != nil {
+		l.hook = nil
+		h()
+	}
+	return l.NullLogger.Info()
+}
 
 // C30: liveness and readiness follow subsystem reports within one tick.
 //
@@ -24,9 +42,9 @@ import (
 func init() {
 	Register(&Check{
 		ID: "C30", World: "E/health", Gen: genHealth, Run: runHealth,
-		OwnProbes: []string{"must_be_dead_checked", "must_be_alive_checked_late", "ready_true_checked", "reregister"},
+		OwnProbes: []string{"must_be_dead_checked", "must_be_alive_checked_late", "ready_true_checked", "reregister", "unregister_landed_inside_ready"},
 		Real:      []string{"internal/health.Health (Register/Ready/Unregister/IsAlive/IsReady and its ticker loop)"},
-		Stub:      []string{"clock (SimClock: the 500ms health ticker is delivered by the driver)", "metrics (NullMetrics)", "logger (NullLogger)"},
+		Stub:      []string{"clock (SimClock: the 500ms health ticker is delivered by the driver)", "metrics (NullMetrics)", "logger (NullLogger with a hook on Info: the seam for an Unregister overlapping a Ready)"},
 	})
 }
 
@@ -83,6 +101,13 @@ func genHealth(r *Rng, tier string, p *Plan) {
 			delete(timeouts, s)
 			delete(last, s)
 		case 3:
+			if r.Bool(0.5) {
+				// a report that changes the subsystem's state, overlapped by its Unregister
+				p.Add(Op{K: "ready_during_unregister", At: now, S: s})
+				delete(timeouts, s)
+				delete(last, s)
+				break
+			}
 			p.Add(Op{K: "query", At: now})
 		default:
 			p.Add(Op{K: "ready", At: now, S: s, B: r.Bool(0.75)})
@@ -109,7 +134,8 @@ func runHealth(t *testing.T, p *Plan) *Outcome {
 		drv := NewDriver(out, p.Seed, clk)
 		start := time.Now()
 		time.Sleep(us(p.N["phase_us"])) // phase of the health ticker relative to the ops
-		h := &health.Health{Clock: clk}
+		hl := &hookLogger{}
+		h := &health.Health{Clock: clk, Logger: hl}
 		h.Start()
 		drv.Settle()
 		drv.Start = time.Now()
@@ -197,6 +223,33 @@ func runHealth(t *testing.T, p *Plan) *Outcome {
 					*s = hsub{registered: true, timeout: us(op.N)}
 				case "unregister":
 					h.Unregister(op.S)
+					if s.registered {
+						s.everUnreg = true
+					}
+					s.registered, s.reported = false, false
+				case "ready_during_unregister":
+					// the report flips the ready state (so that Health logs the change);
+					// from inside that log call an Unregister of the same subsystem is
+					// started on a goroutine of its own: it completes there, or waits for
+					// the lock Ready holds and completes right after. Either way both
+					// have happened afterwards, and a report for an unregistered
+					// subsystem changes nothing: the subsystem is unregistered.
+					flip := !(s.registered && s.reported && s.lastReady)
+					done := make(chan struct{})
+					hl.hook = func() {
+						gid := make(chan int64, 1)
+						go func() { gid <- goid(); h.Unregister(op.S); close(done) }()
+						awaitGoroutine(<-gid, done)
+						out.Probe("unregister_landed_inside_ready")
+					}
+					h.Ready(op.S, flip)
+					if hl.hook != nil {
+						// Health had nothing to log: the Unregister follows the report
+						hl.hook = nil
+						h.Unregister(op.S)
+						close(done)
+					}
+					<-done
 					if s.registered {
 						s.everUnreg = true
 					}
